@@ -8,6 +8,7 @@ pub trait Monitor {
     fn finish(&mut self, _obs: &mut Obs) {}
 }
 
+pub mod c01;
 pub mod c04;
 pub mod c05;
 pub mod c09;
@@ -15,6 +16,7 @@ pub mod c18;
 
 pub fn create(a: &Args) -> Option<Box<dyn Monitor>> {
     match a.prop.as_str() {
+        "C01" => Some(Box::new(c01::C01::new(a))),
         "C04" => Some(Box::new(c04::C04::new(a))),
         "C05" => Some(Box::new(c05::C05::new(a))),
         "C09" => Some(Box::new(c09::C09::new(a))),
